@@ -19,7 +19,7 @@ LEVEL_NOTE = ("Trusted: seam completeness for the dynamically linked binary; the
 RULE = ("case = one generated project; twin run records operations; plans = fail/torn on each scratch OPEN_W / WRITE / RENAME "
         "(single), pairs of them, and persistent class faults (every rename out of TMPDIR fails EXDEV; every create in TMPDIR "
         "fails; disk full from operation k). Non-trivial = the planned fault fired; distinct = (world, plan).")
-PROBES = ["tmpdir_other_fs", "non_utf8_tmpdir", "real_missing_tmpdir", "exdev_rename", "no_scratch", "multi_fault", "disk_full_from", "error_surfaced_before_rename", "post_rename_write_failed"]
+PROBES = ["unseen_ops_fail", "tmpdir_other_fs", "non_utf8_tmpdir", "real_missing_tmpdir", "exdev_rename", "no_scratch", "multi_fault", "disk_full_from", "error_surfaced_before_rename", "post_rename_write_failed"]
 PROBES_ZERO_EXPECTED = {"post_rename_write_failed": "since fix 1d3b04e (flush before the rename) the repaired tree issues no write after a "
                         "rename; the probe counts again as soon as a change reintroduces one"}
 ASSUMPTIONS = ["an injected failure is final for that call (no hidden retry by the seam)",
@@ -102,6 +102,9 @@ def plans_for(rng, ops, phm, tier, base):
     srcw = {"from": 1, "kinds": rng.choice([["WRITE"], ["WRITE"], ["WRITE", "OPEN_W"]]), "pre": "proj/src", "act": "fail",
             "errno": rng.choice(["ENOSPC", "EIO", "EDQUOT"])}
     plans.append(("exdev_srcwrite", [{"from": 1, "kinds": ["RENAME"], "pre": "tmp/", "act": "fail", "errno": "EXDEV"}, srcw]))
+    uf = scen.unseen_ops_fault(rng, ops)
+    if uf:
+        plans.append(("unseen_ops", [uf]))
     out = []
     for name, fs in plans:
         out.append((name, {"seed": base["seed"], "perm": base["perm"], "faults": fs}))
@@ -224,6 +227,8 @@ def run_case(rng, idx, tier, ctx):
         if fired:
             ctx.nontrivial.add("%d.%d" % (idx, n))
         f0 = plan["faults"][0] if plan["faults"] else {"act": "none"}
+        if name == "unseen_ops":
+            ctx.probes["unseen_ops_fail"] += 1
         if name == "other_fs":
             ctx.probes["tmpdir_other_fs"] += 1
         if name == "exdev" or f0.get("errno") == "EXDEV":
